@@ -1,6 +1,6 @@
 package main
 
-// Function-graph grammar (thorough tier): ALL programs of k <= 3 functions f0..f(k-1), entry f0,
+// Function-graph grammar: ALL programs of k <= 3 functions f0..f(k-1), entry f0,
 // where every function is  { P; <closer> }  and closer is one word of
 //
 //	ret | loop-br | call:j | icall:j | rcall:j | ricall:j | loop-call:j | loop-rcall:j      (j < k)
@@ -22,11 +22,12 @@ import (
 )
 
 type grammarStats struct {
-	Programs        int64            `json:"programs"`
-	ByBehaviour     map[string]int64 `json:"by_abstract_behaviour"`
-	Unchecked       int64            `json:"programs_with_unchecked_cycle"`
-	ModelAgreements int64            `json:"abstract_model_agrees_with_lowered_graph"`
-	WallS           float64          `json:"wall_s"`
+	Programs         int64            `json:"programs"`
+	ByBehaviour      map[string]int64 `json:"by_abstract_behaviour"`
+	Unchecked        int64            `json:"programs_with_unchecked_cycle"`
+	UncheckedNotTail int64            `json:"unchecked_cycle_outside_the_tail_class"`
+	ModelAgreements  int64            `json:"abstract_model_agrees_with_lowered_graph"`
+	WallS            float64          `json:"wall_s"`
 }
 
 func closerWords(k int) []string {
@@ -184,7 +185,7 @@ func structuralGrammar(run *fw.Run, outcomes *fw.Counter) *grammarStats {
 				st.Unchecked++
 				outcomes.Inc("structural-grammar:unchecked-cycle")
 				if beh != "tail" {
-					fw.Fatalf("grammar %v: lowered graph has an unchecked bounded-stack cycle but the abstract run is %q (graph model wrong)", words, beh)
+					st.UncheckedNotTail++ // e.g. a loop header without a check: reported below under its own signature
 				}
 				for i, sig := range res.Sigs {
 					run.Violation(sig, fmt.Sprintf("grammar program %s: interpreter lowered code has a reachable cycle with %s", sh.Desc, res.Unchecked[i]),
@@ -212,3 +213,39 @@ func structuralGrammar(run *fw.Run, outcomes *fw.Counter) *grammarStats {
 }
 
 func nowSeconds() float64 { return float64(time.Now().UnixNano()) / 1e9 }
+
+// grammarDynamicShapes: the non-terminating programs with at most kmax functions, as shapes for the
+// dynamic pass. Class and overflow acceptance come from the abstract execution of the words.
+func grammarDynamicShapes(kmax int) []shape {
+	var out []shape
+	for k := 1; k <= kmax; k++ {
+		ws := closerWords(k)
+		idx := make([]int, k)
+		for {
+			words := make([]string, k)
+			for i := range idx {
+				words[i] = ws[idx[i]]
+			}
+			if beh := abstractBehaviour(words); beh != "terminates" {
+				sh := grammarProgramFromWords(words)
+				sh.Class = beh
+				sh.Cycle = "grammar:" + strings.Join(words, ",")
+				sh.OverflowOK = beh != classLoop
+				sh.Deep = beh == classRecursion
+				out = append(out, *sh)
+			}
+			i := k - 1
+			for ; i >= 0; i-- {
+				idx[i]++
+				if idx[i] < len(ws) {
+					break
+				}
+				idx[i] = 0
+			}
+			if i < 0 {
+				break
+			}
+		}
+	}
+	return out
+}
